@@ -5,8 +5,10 @@
 # the property's quick check (and optional extra checks) against the scratch copy. Stores everything
 # under /verif/seeded/<PID>-<K>/ and deletes the scratch copy.
 cd "$(dirname "$0")/.." || exit 2
-SRC=$1; PID=$2; K=$3; shift 3; EXTRA="$@"
-D=seeded/$PID-$K; mkdir -p $D
+SRC=$1; PID=$2; K=$3; shift 3
+DK=$K; if [[ "$1" =~ ^[0-9]+$ ]]; then DK=$1; shift; fi   # optional destination index
+EXTRA="$@"
+D=seeded/$PID-$DK; mkdir -p $D
 cp $SRC/patch$K.diff $D/patch.diff; cp $SRC/demo$K.py $D/demo.py; cp $SRC/meta$K.json $D/meta_agent.json 2>/dev/null
 S=$(mktemp -d /tmp/seed.XXXXXX)
 cp -r /repo/src /repo/tests /repo/pyproject.toml $S/ 2>/dev/null
@@ -22,7 +24,7 @@ for id in $PID $EXTRA; do
   res="$res $id:exit=$rc[$kinds]"
   echo "$out" | grep '^VIOLATION' | head -3 | cut -c1-400 > $D/check_$id.txt
 done
-echo "$PID-$K demo_with=$dw demo_without=$dwo tests=[$tres] checks:$res"
+echo "$PID-$DK demo_with=$dw demo_without=$dwo tests=[$tres] checks:$res"
 /venv/bin/python - "$D" "$PID" "$dw" "$dwo" "$tres" "$res" <<'PY'
 import json, sys, os
 d, pid, dw, dwo, tres, res = sys.argv[1:7]
